@@ -123,7 +123,7 @@ func (p *Submit) IDecode(data []byte) error {
 	p.ChargeNumber = b.ReadCStringN(21)
 	p.UserCount = b.ReadUint8()
 	p.UserNumber = nil // a PDU value decoded into before must not keep the earlier frame's recipients
-	for i := 0; i < int(p.UserCount); i++ {
+	for i := 0; i < int(p.UserCount) && b.Error() == nil; i++ {
 		nubmer := b.ReadCStringN(21)
 		p.UserNumber = append(p.UserNumber, nubmer)
 	}
